@@ -3,7 +3,7 @@
 (* answered (harness/cmd/c04).  trace.ndjson holds, per configuration,           *)
 (*   {"ev":"load","id":..,"cfg":<configuration>,"outcome":"accepted|rejected|panic|crash","init":"ok|error|panic|crash|-"} *)
 (* followed, when it was accepted, by one event per transaction                  *)
-(*   {"ev":"exec","id":..,"flow":<user flow>,"dir":"req|res","seq":[{flow,sid,key,dir,out}..],"sysreq":[sid..],"outcome":"ok|error|panic|overlong|crash","steps":n} *)
+(*   {"ev":"exec","id":..,"flow":<user flow>,"dir":"req|res","flows":[user flows selected, first = flow],"seq":[{flow,sid,key,dir,out}..],"sysreq":[sid..],"outcome":"ok|error|panic|overlong|crash","steps":n} *)
 (* Function-like properties: every event carries the input and what the real     *)
 (* code did; the step evaluates the property (FlowGraphP) on it.  An event the   *)
 (* property does not permit is reported as <<"REJECT", line, id, reason>> and the *)
@@ -30,7 +30,9 @@ Judge(e, g) ==
          ELSE "ok")
     ELSE IF e.ev = "exec" THEN
         (IF Mode = "C05" THEN ExecSafeVerdict(g, e.outcome, e.steps)
-         ELSE IF Mode = "C04" THEN (IF e.outcome \in {"ok", "error"} THEN TxVerdict(g, e.flow, e.dir, e.seq, e.sysreq, e.outcome) ELSE "ok")
+         ELSE IF Mode = "C04" THEN (IF e.outcome \notin {"ok", "error"} THEN "ok"
+                                    ELSE IF Len(e.flows) > 1 THEN MultiTxVerdict(g, e.flows, e.dir, e.seq, e.sysreq, e.outcome)
+                                    ELSE TxVerdict(g, e.flow, e.dir, e.seq, e.sysreq, e.outcome))
          ELSE "ok")
     ELSE "unknown-event"
 
